@@ -399,9 +399,43 @@ theorem addChild_head (h : Str) (e : Elem) (s : Sec) (rest : List Sec) (hs : s.t
     addChild h e (s :: rest) = { s with children := s.children ++ [e] } :: rest := by
   simp [addChild, hs]
 
-/-- with well-sectioned input the graph pass only ever appends to the most recent section -/
-theorem gfold_wellSec (l : List Elem) (s0 : Sec) (older : List Sec)
-    (hw : wellSec (some s0.title.text) l = true) :
+theorem hasTitle_cons (h : Str) (s : Sec) (rest : List Sec) :
+    hasTitle h (s :: rest) = (decide (s.title.text = h) || hasTitle h rest) := by
+  simp [hasTitle]
+
+theorem hasTitle_eq_contains (h : Str) (secs : List Sec) :
+    hasTitle h secs = (secs.map (·.title.text)).contains h := by
+  induction secs with
+  | nil => rfl
+  | cons s r ih =>
+    rw [hasTitle_cons, ih]
+    simp only [List.map_cons, List.contains_cons]
+    by_cases hs : s.title.text = h
+    · simp [hs]
+    · have : (h == s.title.text) = false := by
+        simp only [beq_eq_false_iff_ne, ne_eq]; exact fun h' => hs h'.symm
+      simp [hs, this]
+
+/-- an element that names the most recent title, names no earlier title, or names nothing is
+    appended to the most recent section -/
+theorem gstep_head (s0 : Sec) (older : List Sec) (e : Elem) (ht : e.isTitle = false)
+    (h : ∀ x, e.md.parentHeading = some x → x = s0.title.text ∨ hasTitle x older = false) :
+    gstep (s0 :: older) e = { s0 with children := s0.children ++ [e] } :: older := by
+  unfold gstep
+  simp only [ht, Bool.false_eq_true, if_false]
+  cases hp : e.md.parentHeading with
+  | none => rfl
+  | some x =>
+    simp only
+    by_cases hx : s0.title.text = x
+    · simp [hasTitle_cons, hx, addChild]
+    · rcases h x hp with h1 | h1
+      · exact absurd h1.symm hx
+      · simp [hasTitle_cons, hx, h1, addToHead]
+
+/-- without stale headings the graph pass only ever appends to the most recent section -/
+theorem gfold_noStale (l : List Elem) (s0 : Sec) (older : List Sec)
+    (hw : noStale (s0.title.text :: older.map (·.title.text)) l = true) :
     ((l.foldl gstep (s0 :: older)).reverse.flatMap Sec.elems) =
       (s0 :: older).reverse.flatMap Sec.elems ++ l := by
   induction l generalizing s0 older with
@@ -409,35 +443,50 @@ theorem gfold_wellSec (l : List Elem) (s0 : Sec) (older : List Sec)
   | cons e r ih =>
     simp only [List.foldl_cons]
     by_cases ht : e.isTitle = true
-    · have hw' : wellSec (some e.text) r = true := by simpa [wellSec, ht] using hw
+    · have hw' : noStale (e.text :: s0.title.text :: older.map (·.title.text)) r = true := by
+        simpa [noStale, ht] using hw
       have hg : gstep (s0 :: older) e = ⟨e, []⟩ :: s0 :: older := by simp [gstep, ht]
-      rw [hg, ih ⟨e, []⟩ (s0 :: older) hw']
+      rw [hg, ih ⟨e, []⟩ (s0 :: older) (by simpa using hw')]
       simp [Sec.elems, List.append_assoc]
-    · have hw2 : e.md.parentHeading = some s0.title.text ∧ wellSec (some s0.title.text) r = true := by
-        simpa [wellSec, ht] using hw
-      have hg : gstep (s0 :: older) e = { s0 with children := s0.children ++ [e] } :: older := by
-        simp [gstep, ht, hw2.1, addChild]
+    · have ht' : e.isTitle = false := by simpa using ht
+      have hw2 : (∀ x, e.md.parentHeading = some x →
+            x = s0.title.text ∨ (older.map (·.title.text)).contains x = false) ∧
+          noStale (s0.title.text :: older.map (·.title.text)) r = true := by
+        cases hp : e.md.parentHeading with
+        | none =>
+          have : noStale (s0.title.text :: older.map (·.title.text)) r = true := by
+            simpa [noStale, ht', hp] using hw
+          exact ⟨fun x hx => (by cases hx), this⟩
+        | some y =>
+          have h := hw
+          simp only [noStale, ht', hp, Bool.false_eq_true, if_false, Bool.and_eq_true,
+            Bool.or_eq_true, decide_eq_true_eq, Bool.not_eq_true'] at h
+          exact ⟨fun x hx => (by cases hx; exact h.1), h.2⟩
+      have hg := gstep_head s0 older e ht' (fun x hx => by
+        rcases hw2.1 x hx with h1 | h1
+        · exact Or.inl h1
+        · exact Or.inr (by rw [hasTitle_eq_contains]; exact h1))
       rw [hg, ih _ older (by simpa using hw2.2)]
       simp [Sec.elems, List.append_assoc]
 
-theorem wellSec_after (els : List Elem) (hw : wellSec none els = true) :
+theorem noStale_after (els : List Elem) (hw : noStale [] els = true) :
     match afterPreamble els with
     | [] => True
-    | t :: l => t.isTitle = true ∧ wellSec (some t.text) l = true := by
+    | t :: l => t.isTitle = true ∧ noStale [t.text] l = true := by
   induction els with
   | nil => simp [afterPreamble]
   | cons e r ih =>
     by_cases ht : e.isTitle = true
     · have : afterPreamble (e :: r) = e :: r := by simp [afterPreamble, List.dropWhile, ht]
       rw [this]
-      exact ⟨ht, by simpa [wellSec, ht] using hw⟩
+      exact ⟨ht, by simpa [noStale, ht] using hw⟩
     · have : afterPreamble (e :: r) = afterPreamble r := by simp [afterPreamble, List.dropWhile, ht]
       rw [this]
-      exact ih (by simpa [wellSec, ht] using hw)
+      exact ih (by simpa [noStale, ht] using hw)
 
-theorem sections_flatten (els : List Elem) (hw : wellSec none els = true) :
+theorem sections_flatten (els : List Elem) (hw : noStale [] els = true) :
     (sections els).flatMap Sec.elems = afterPreamble els := by
-  have h := wellSec_after els hw
+  have h := noStale_after els hw
   unfold sections
   cases hap : afterPreamble els with
   | nil => simp
@@ -445,8 +494,109 @@ theorem sections_flatten (els : List Elem) (hw : wellSec none els = true) :
     rw [hap] at h
     have hg : gstep [] t = [⟨t, []⟩] := by simp [gstep, h.1]
     simp only [List.foldl_cons, hg]
-    rw [gfold_wellSec l ⟨t, []⟩ [] h.2]
+    rw [gfold_noStale l ⟨t, []⟩ [] (by simpa using h.2)]
     simp [Sec.elems]
+
+/-- well-sectioned input (what `partition()` produces) has no stale headings -/
+theorem wellSec_noStale (l : List Elem) (t : Str) (ts : List Str) (hw : wellSec (some t) l = true) :
+    noStale (t :: ts) l = true := by
+  induction l generalizing t ts with
+  | nil => rfl
+  | cons e r ih =>
+    by_cases ht : e.isTitle = true
+    · have : wellSec (some e.text) r = true := by simpa [wellSec, ht] using hw
+      simpa [noStale, ht] using ih e.text (t :: ts) this
+    · have hw2 : e.md.parentHeading = some t ∧ wellSec (some t) r = true := by
+        simpa [wellSec, ht] using hw
+      simp [noStale, ht, hw2.1, ih t ts hw2.2]
+
+theorem wellSec_none_noStale (l : List Elem) (hw : wellSec none l = true) : noStale [] l = true := by
+  induction l with
+  | nil => rfl
+  | cons e r ih =>
+    by_cases ht : e.isTitle = true
+    · have : wellSec (some e.text) r = true := by simpa [wellSec, ht] using hw
+      simpa [noStale, ht] using wellSec_noStale r e.text [] this
+    · have : wellSec none r = true := by simpa [wellSec, ht] using hw
+      simp [noStale, ht, ih this]
+
+/-! ### nothing is lost: every step of the graph pass adds exactly the new element -/
+
+theorem addToHead_perm (e : Elem) (s : Sec) (rest : List Sec) :
+    ((addToHead e (s :: rest)).flatMap Sec.elems).Perm (e :: (s :: rest).flatMap Sec.elems) := by
+  simp only [addToHead, List.flatMap_cons, Sec.elems, List.cons_append, List.append_assoc,
+    List.singleton_append]
+  exact (List.Perm.cons _ List.perm_middle).trans (List.Perm.swap _ _ _)
+
+theorem addChild_perm (h : Str) (e : Elem) (secs : List Sec) (hh : hasTitle h secs = true) :
+    ((addChild h e secs).flatMap Sec.elems).Perm (e :: secs.flatMap Sec.elems) := by
+  induction secs with
+  | nil => simp [hasTitle] at hh
+  | cons s rest ih =>
+    by_cases hs : s.title.text = h
+    · rw [addChild_head h e s rest hs]
+      exact addToHead_perm e s rest
+    · have hh' : hasTitle h rest = true := by simpa [hasTitle_cons, hs] using hh
+      have : addChild h e (s :: rest) = s :: addChild h e rest := by simp [addChild, hs]
+      rw [this]
+      simp only [List.flatMap_cons]
+      exact ((ih hh').append_left _).trans List.perm_middle
+
+theorem gstep_perm (secs : List Sec) (e : Elem) (hne : secs ≠ [] ∨ e.isTitle = true) :
+    ((gstep secs e).flatMap Sec.elems).Perm (e :: secs.flatMap Sec.elems) ∧ gstep secs e ≠ [] := by
+  unfold gstep
+  by_cases ht : e.isTitle = true
+  · simp [ht, Sec.elems]
+  · have hs : secs ≠ [] := by rcases hne with h | h; exact h; exact absurd h ht
+    obtain ⟨s, rest, rfl⟩ : ∃ s rest, secs = s :: rest := by
+      cases secs with
+      | nil => exact absurd rfl hs
+      | cons s rest => exact ⟨s, rest, rfl⟩
+    simp only [ht, Bool.false_eq_true, if_false]
+    cases hp : e.md.parentHeading with
+    | none => exact ⟨addToHead_perm e s rest, by simp [addToHead]⟩
+    | some x =>
+      simp only
+      by_cases hx : hasTitle x (s :: rest) = true
+      · rw [if_pos hx]
+        refine ⟨addChild_perm x e _ hx, ?_⟩
+        simp only [addChild]; split <;> simp
+      · rw [if_neg hx]
+        exact ⟨addToHead_perm e s rest, by simp [addToHead]⟩
+
+theorem gfold_perm (l : List Elem) (secs : List Sec)
+    (hne : secs ≠ [] ∨ ∃ t r, l = t :: r ∧ t.isTitle = true) :
+    ((l.foldl gstep secs).flatMap Sec.elems).Perm (l.reverse ++ secs.flatMap Sec.elems) := by
+  induction l generalizing secs with
+  | nil => simp
+  | cons e r ih =>
+    have hne' : secs ≠ [] ∨ e.isTitle = true := by
+      rcases hne with h | ⟨t, r', h, ht⟩
+      · exact Or.inl h
+      · cases h; exact Or.inr ht
+    obtain ⟨hp, hn⟩ := gstep_perm secs e hne'
+    simp only [List.foldl_cons, List.reverse_cons, List.append_assoc, List.singleton_append]
+    exact (ih (gstep secs e) (Or.inl hn)).trans (hp.append_left _)
+
+/-- the sections together hold exactly the elements from the first title on -/
+theorem sections_perm (els : List Elem) :
+    ((sections els).flatMap Sec.elems).Perm (afterPreamble els) := by
+  unfold sections
+  have hdrop : ∀ l : List Elem, l.dropWhile (fun e => !e.isTitle) = [] ∨
+      ∃ t r, l.dropWhile (fun e => !e.isTitle) = t :: r ∧ t.isTitle = true := by
+    intro l
+    induction l with
+    | nil => simp
+    | cons e r ih =>
+      by_cases ht : e.isTitle = true
+      · right; exact ⟨e, r, by simp [List.dropWhile, ht], ht⟩
+      · simpa [List.dropWhile, ht] using ih
+  have key : (((afterPreamble els).foldl gstep []).flatMap Sec.elems).Perm (afterPreamble els).reverse := by
+    rcases hdrop els with h | ⟨t, r, h, ht⟩
+    · simp [afterPreamble, h]
+    · have := gfold_perm (afterPreamble els) [] (Or.inr ⟨t, r, h, ht⟩)
+      simpa using this
+  exact ((List.reverse_perm _).flatMap_right _).trans (key.trans (List.reverse_perm _))
 
 /-- inversion of `Covers` at an input element that cannot be split -/
 theorem Covers.cons_unsplittable {o i : List Elem} {e : Elem} (hs : isSplittable e = false)
